@@ -5,7 +5,7 @@
 From Coq Require Import List NArith.
 From Pika Require Import Base.Conc Model.IndexQueue Proofs.IndexQueueProofs.
 From Pika Require Import Model.DequeSpec Model.Deque Model.DequeWitness Proofs.DequeProofs.
-From Pika Require Import Model.DequeExplore Proofs.DequeBoundedProofs.
+From Pika Require Import Model.DequeExplore Proofs.DequeBoundedProofs Proofs.DequeSafetyProofs.
 From Pika Require Import Gen.GenBackends Model.Backends Proofs.BackendsProofs.
 Import ListNotations.
 Local Open Scope N_scope.
@@ -144,6 +144,19 @@ Theorem C17_deque_free_entered_only_by_cas : forall o t g l s a,
                  atag (anc (fst (dq_tstep o t g l))) = atag (anc g) + 1.
 Proof. exact free_entered_only_by_cas. Qed.
 Print Assumptions C17_deque_free_entered_only_by_cas.
+
+(* memory safety, for every schedule / thread count / program, also after an ABA: every pointer
+   in the anchor, in any link of any chunk, in the pool head and in every thread's registers
+   (snapshots, prev, prevnext, own node) is nullptr or a chunk the type-stable pool has already
+   handed out or pre-allocated (< fresh) — so every dereference of the code goes to a
+   deque_node, which is what makes reading a freed node benign *)
+Theorem C17_deque_memory_safe : forall k progs sched,
+  let c := dq_run sched k progs in
+  (0 < fresh (fst c) /\ (forall a, node_ok (fresh (fst c)) (heap (fst c) a)) /\
+   anchor_ok (fresh (fst c)) (anc (fst c)) /\ pool (fst c) < fresh (fst c)) /\
+  forall t, pc_ok (fresh (fst c)) (dpc (snd c t)).
+Proof. exact deque_memory_safe_lemma. Qed.
+Print Assumptions C17_deque_memory_safe.
 
 (* 2.4 Conservation under the guard "no link CAS hits a freed / re-allocated node" — PARTIAL.
    Full statement (NOT proved): for every pool size, all programs and every schedule, if
